@@ -63,7 +63,11 @@ def main():
             # interior evaluation points (10% margin)
             lo = [R1D[0] + 0.1 * (R1D[-1] - R1D[0]), Z1D[0] + 0.1 * (Z1D[-1] - Z1D[0])]
             hi = [R1D[-1] - 0.1 * (R1D[-1] - R1D[0]), Z1D[-1] - 0.1 * (Z1D[-1] - Z1D[0])]
-            P = rng.uniform(lo, hi, size=(300, 2))
+            P = rng.uniform(lo, hi, size=(400, 2))
+            # the tabulated profiles end at psi_N = pn_max (constant continuation): their derivative
+            # jumps there and a finite difference straddling that contour is meaningless
+            pn_ = fam.psinorm(eq.psi(P[:, 0], P[:, 1]))
+            P = P[np.abs(pn_ - fam.pn_max) > 0.02][:300]
             R, Z = P[:, 0], P[:, 1]
             h = 1e-4
             pR = fdR(eq.psi, R, Z, h)
